@@ -190,6 +190,17 @@ def malformedCount (s : List Char) : Bool :=
     | '(' :: body => badCount body
     | _ => false
 
+/-- **text behind the description**: a keyword description whose last character (white space aside) is not
+    the closing parenthesis (`lin(2:0 1)junk`, `fac(3) 4`) -/
+def trailingJunk (s : List Char) : Bool :=
+  let t := s.dropWhile isWs
+  let name := t.takeWhile isLetter
+  if name.isEmpty ∨ (keywordKind name).isNone then false
+  else
+    match (s.reverse.dropWhile isWs).head? with
+    | some c => c != ')'
+    | none => false
+
 /-- **recognised descriptions without a sequence**: a linear source of zero steps, an empty or descending
     range, a step that is not positive -/
 def Desc.senseless : Desc → Bool
@@ -258,5 +269,19 @@ def profileMalformed (s : List Char) : Bool :=
      | some vs => ((name = "lin" ∨ name = "linear") && vs.length < 2) || ((name = "bound" ∨ name = "boundary") && vs.length < 3)
      | none => false
    | _ => false)
+
+/-- a character no number list contains (letters of `inf` / `nan` count as possible number text) -/
+def foreignChar (c : Char) : Bool :=
+  !(isDig c || isWs c || c = '+' || c = '-' || c = '.' || c = ':' ||
+    "einfatyEINFATY".toList.contains c)
+
+/-- profile descriptions with foreign text: a canonical keyword, a blank, and a rest that contains a
+    character no number list can contain (`lin 0 1 junk`, `poly 1 2 x`) — judged by the run, no theorem -/
+def profileJunk (s : List Char) : Bool :=
+  let name := String.ofList (s.takeWhile isLetter)
+  match s.dropWhile isLetter with
+  | ' ' :: body =>
+    (name = "lin" ∨ name = "linear" ∨ name = "bound" ∨ name = "boundary" ∨ name = "poly") && body.any foreignChar
+  | _ => false
 
 end Mpt.IterSpec
